@@ -231,6 +231,19 @@ reg(
     "DESIGN.md 4.2 C09",
 )
 
+reg(
+    "C08",
+    "For every accelerator x streamer configuration of a menu (ALU: each of 3 streamers varied over temporal dims/flags, spatial dims and every subset of the four "
+    "options; gemmx: three geometries x six kernel forms; xDMA: mask options x extension subsets; PHS: accelerators built from merge histories) and marker stride "
+    "patterns of every temporal length (all bounds/strides pairwise distinct primes, zero-pointer operands, reuse dims) the real convert_to_acc_ops runs on a "
+    "real snax_stream.streaming_region next to the generate_acc_op() declaration; the constants feeding accfg.setup are folded on the IR machine and compared "
+    "BY FIELD NAME with the meaning of each register (pointers, padded bounds/strides, masks, broadcast flag, packed csr0/subtractions/shifts, multipliers, "
+    "K*N*M and loop counts = number of stream steps, PHS switches = decoded values); value count = field count, names in declared order.",
+    "Trusted: register meanings listed in checks/C08.py ASSUMPTIONS (from snax.py / snax_gemmx.py comments); the transpose register is checked for presence only; snax_hwpe_mult's linalg path and YAML-driven configurations (dacite absent) are not covered.",
+    "explicit enumeration of a finite configuration x input domain against a by-name reference",
+    "DESIGN.md 4.2 C08",
+)
+
 NOT_APPLICABLE = []
 
 ALL = [f"C{i:02d}" for i in range(1, 21)]
